@@ -5,7 +5,8 @@
    xdiff   = fdiff_m on signatures whose defaults are expression trees, compared through a key. *)
 From Coq Require Import List Arith Bool ZArith.
 From Verif Require Import Lib.Sexp Model.C10_kinds Gen.C10_tables Gen.C10_rules Model.C10_diff Model.C10_defaults Model.C10_ext
-  Model.C10_hist Proofs.C10_diff Proofs.C10_complete Proofs.C10_sound Proofs.C10_rule Proofs.C10_defaults Proofs.C10_hist.
+  Model.C10_hist Gen.C10_guards Model.C10_code Proofs.C10_diff Proofs.C10_complete Proofs.C10_sound Proofs.C10_rule Proofs.C10_defaults Proofs.C10_hist
+  Proofs.C10_code Proofs.C10_exact.
 Import ListNotations.
 Open Scope list_scope. Open Scope nat_scope.
 
@@ -190,3 +191,28 @@ Theorem C10_deleted_parameter_reported : forall ck s i q,
   In (Removed (pname q)) (fdiff_g ck s new) \/ swallowed (pkind q) (has_kind VP new) (has_kind VK new) = true.
 Proof. exact deleted_parameter_reported. Qed.
 Print Assumptions C10_deleted_parameter_reported.
+
+(* ---- the path conditions of _function_incompatibilities, regenerated from diff.py on every run (Gen/C10_guards.v), are the
+   documented rules; the parameter rules written over them -- what the harness extracts and runs against the implementation --
+   are fdiff_m, the definition the theorems above are stated over ---- *)
+Theorem C10_path_conditions : forall ok nk oreq nreq present sw inc same differ,
+  rule_removed ok nk oreq nreq present sw inc same differ = negb present && negb sw /\
+  rule_required ok nk oreq nreq present sw inc same differ = present && (nreq && negb oreq) /\
+  rule_moved ok nk oreq nreq present sw inc same differ = present && (is_pos ok && is_pos nk && negb same) /\
+  rule_kind ok nk oreq nreq present sw inc same differ = present && (negb (kind_eqb ok nk) && inc) /\
+  rule_default ok nk oreq nreq present sw inc same differ =
+    present && (negb oreq && negb nreq && negb (is_var ok) && negb (is_var nk) && differ) /\
+  rule_added ok nk oreq nreq present sw inc same differ = negb present && nreq.
+Proof. exact path_conditions. Qed.
+Print Assumptions C10_path_conditions.
+Theorem C10_extracted_rules_are_model : forall old new, fdiff_code old new = fdiff_m old new.
+Proof. exact fdiff_code_eq. Qed.
+Print Assumptions C10_extracted_rules_are_model.
+
+(* ---- the excuse of a became-required / added-required report is exact: the parameter is excused iff no call that old
+   binds leaves it unfilled in new ---- *)
+Theorem C10_required_excuse_exact : forall old new, wf old = true -> wf new = true -> forall n np,
+  find n new = Some np -> required np = true -> (forall p, find n old = Some p -> required p = false) ->
+  (excuse old new (AddedReq n) = true <-> forall c K, binds old c K = true -> param_ok new c K np = true).
+Proof. exact required_excuse_exact. Qed.
+Print Assumptions C10_required_excuse_exact.
